@@ -88,9 +88,12 @@ def classify(case, files):
     """Classify the (faulted) input. Returns (class, n_records or None, reason)."""
     paths = gen.input_paths(case)
     plains = []
+    unnamed = bool(case["input"].get("stdin") or case["input"].get("devfd"))
     for p in paths:
         try:
-            plains.append(_plain_of(p, files[p]))
+            # standard input and /dev/fd pipes have no name: the container is recognised by content only,
+            # and no bytes at all are an empty input
+            plains.append(_plain_of("unnamed" if unnamed else p, files[p]))
         except fmt.FormatError as e:
             return MAL, None, f"container: {e}"
     if case["fmt"] != "fastq":
@@ -577,6 +580,9 @@ def conformance(seed, tier, k):
         # the real runs read regular files: no /dev/fd pipes here (under spawn they fail, see KF-C06-4)
         case["input"].pop("devfd", None)
         case["knobs"].pop("devfd", None)
+        # ... and get them whole: how far a run gets before it meets the fault depends on the piece size
+        case["knobs"].pop("short_reads", None)
+        case["knobs"].pop("default_buffer", None)
         files = engine.gen_files(case)
         ctx = engine.Ctx(case)
         s1 = C.run_serial(case, ctx, files, name="serial")
